@@ -41,7 +41,9 @@ def main():
         try:
             with contextlib.redirect_stdout(buf), contextlib.redirect_stderr(buf):
                 if a["kind"] == "analyse":
-                    name = "c%d" % a["c"]
+                    # every contract is analysed under the SAME name (as the CLI does for same-named files and the
+                    # repository's tests do with "test"): state remembered per contract name across analyses must show
+                    name = "contract"
                     tealer = init_tealer_from_single_contract(job["contracts"][a["c"] - 1], name)
                     for d in job["orders"][a["o"] - 1]:
                         tealer.register_detector(classes[d])
